@@ -200,7 +200,11 @@ def ob_continuation(i: int) -> Optional[str]:
 SEGS = ["echo a", "ls -l", "cat < a.b.c", "ls -a > a.b.c.de", "wc -l < foo.tar.Z", "echo $HOME", "echo @(1)", "echo $(echo x)", "echo 'q w'",
         "ls | wc", "cat < main.c.o", "echo --b=c", "ls --color=auto", "echo a.b.c.d e.f.g.h", "grep -v x y.z",
         # segments that end in an operator-like word (the parse error then falls on the following break token), alone and after a substitution
-        "cd -", "rm -rf *", "echo @(1) -", "echo $(echo q) *"]
+        "cd -", "rm -rf *", "echo @(1) -", "echo $(echo q) *",
+        # a break word (and / or / ;) inside a substitution; a command word that starts with an environment variable
+        "echo @(1 and 2) z", "echo $(echo a; echo b)", "$HOME/bin/x -l"]
+_BREAK_IN_SUBST = ("echo @(1 and 2) z", "echo $(echo a; echo b)")
+_ENV_LEAD = ("$HOME/bin/x -l",)
 OPS = [None, "&&", "||", "and", "or"]
 POSITIONS = ["top", "after_semicolon", "block", "block2", "function", "continuation", "after_subst_semicolon"]
 
@@ -273,10 +277,18 @@ def _equiv(s0, s1, op_i, pos_i):
     flags = any("--" in s and "=" in s for s in segs)
     if got is None:
         kind = "bare-rejected-dashdash-eq" if flags and op else "bare-rejected"
+        if kind == "bare-rejected" and any(s in _BREAK_IN_SUBST for s in segs):
+            kind = "bare-rejected-break-word-in-substitution"
         return f"{kind}: {bare!r} is rejected ({err_b}) although {expl!r} runs {want}"
     norm = lambda r: [(c.replace("'![", "'").replace("]'", "'"), k) for c, k in r]  # noqa: E731
     if [c for c, _ in got] != [c for c, _ in want]:
         kind = "bare-differs-continued-python-parsable-chain" if pos == "continuation" and op else "bare-differs"
+        if kind == "bare-differs" and any(s in _ENV_LEAD for s in segs):
+            mine = [c for c, _ in got if "/bin/x" in c]
+            theirs = [c for c, _ in want if "/bin/x" in c]
+            rest_same = [c for c, _ in got if "/bin/x" not in c] == [c for c, _ in want if "/bin/x" not in c]
+            if rest_same and mine and all(c.startswith("(['/bin/x'") for c in mine) and len(mine) == len(theirs):
+                kind = "bare-differs-leading-envvar-dropped"
         return f"{kind}: {bare!r} runs {got} but {expl!r} runs {want}"
     return None
 
@@ -292,6 +304,43 @@ def ob_equiv(s0: int, s1: int, op_i: int, pos_i: int) -> Optional[str]:
         k, rest = r.split(":", 1)
         return viol(k, lambda: rest.strip())
     return None
+
+
+def _long_chain(n, op_i):
+    op = OPS[op_i]
+    segs = [f"echo a{k} b" for k in range(n)]
+    bare, expl = _program(segs, op, "top", False), _program(segs, op, "top", True)
+    want, err_e = _run(expl)
+    if want is None:
+        return None
+    got, err_b = _run(bare)
+    if got is None:
+        return f"bare-rejected-long-chain: a chain of {n} two-word commands joined by {op} is rejected ({err_b}) although the explicit form runs {len(want)} commands"
+    if [c for c, _ in got] != [c for c, _ in want]:
+        return f"bare-differs-long-chain: {n} segments joined by {op}: runs {got}, explicit form runs {want}"
+    return None
+
+
+def ob_long_chain(n: int, op_i: int) -> Optional[str]:
+    if not (3 <= n <= 16 and 1 <= op_i < len(OPS)):
+        raise Skip()
+    r = concretely(_long_chain, _pick(list(range(3, 17)), n - 3), _pick(list(range(len(OPS))), op_i))
+    if r:
+        k, rest = r.split(":", 1)
+        return viol(k, lambda: rest.strip())
+    return None
+
+
+def _region_long_chain(args, v):
+    return v.startswith("bare-rejected-long-chain") and args.get("n", 0) >= 12
+
+
+def _region_break_subst(args, v):
+    return v.startswith("bare-rejected-break-word-in-substitution")
+
+
+def _region_env_lead(args, v):
+    return v.startswith("bare-differs-leading-envvar-dropped")
 
 
 def _region_dashdash(args, v):
@@ -343,14 +392,20 @@ OBLIGATIONS = [
     Obligation("continuation_strings", ob_continuation, bounds=f"{len(CONT)} lines with strings containing the other quote and/or '#' before a trailing backslash",
                pre=["0 <= i < 10"], timeout={"quick": 60, "thorough": 60}, symbolic="line index"),
     Obligation("bare_equals_explicit", ob_equiv,
-               bounds=f"{NS} command segments (flags, redirects to dotted names, $VAR, @(), $(), quoted words, pipes, --opt=value) alone or joined "
-                      "by && / || / and / or, at top level, after ';', in an indented block, at depth 2, in a function body, across a backslash "
-                      "continuation: the bare program runs exactly the commands of the program with every segment wrapped in ![...]",
+               bounds=f"{NS} command segments (flags, redirects to dotted names, $VAR, @(), $(), quoted words, pipes, --opt=value, words ending in an "
+                      "operator character, break words inside a substitution, a leading $VAR/path word) alone or joined "
+                      "by && / || / and / or, at top level, after ';' (also after a statement holding a $() substitution), in an indented block, at depth 2, "
+                      "in a function body, across a backslash continuation: the bare program runs exactly the commands of the program with every segment wrapped in ![...]",
                pre=[f"0 <= s0 < {NS}", f"0 <= s1 < {NS}", "0 <= op_i < 5", "0 <= pos_i < 7"],
                parts={"quick": [dict(pos_i=p, op_i=o) for p in range(len(POSITIONS)) for o in range(len(OPS))]},
                timeout={"quick": 240, "thorough": 600},
-               regions={"C03-dashdash-eq-in-chain": _region_dashdash, "C03-continued-python-parsable-chain": _region_cont_chain},
+               regions={"C03-dashdash-eq-in-chain": _region_dashdash, "C03-continued-python-parsable-chain": _region_cont_chain,
+                        "C03-break-word-inside-substitution": _region_break_subst, "C03-leading-envvar-word-dropped": _region_env_lead},
                region_parts={"C03-continued-python-parsable-chain": lambda p: p.get("pos_i") == 5 and p.get("op_i") != 0,
                              "C03-dashdash-eq-in-chain": lambda p: p.get("op_i") != 0},
                symbolic="segment indices"),
+    Obligation("long_chain", ob_long_chain,
+               bounds="chains of 3..16 two-word commands joined by one of && / || / and / or on one line at top level: the bare line runs what the explicit form runs",
+               pre=["3 <= n <= 16", "1 <= op_i < 5"], timeout={"quick": 200, "thorough": 300},
+               regions={"C03-long-chain-retry-cap": _region_long_chain}, symbolic="chain length, operator"),
 ]
